@@ -4,7 +4,7 @@ namespace MpfVerif.Mode
 
 def Op.target : Op → Nat
   | .start m _ _ _ => m | .started m => m | .startedCb m => m | .stop m => m | .stopped m => m | .stoppedCb m => m
-  | .addH m _ => m | .addSw m _ => m | .addDl m _ => m | .fireDl m _ => m
+  | .addH m _ => m | .addSw m _ => m | .addDl m _ => m | .fireDl m _ => m | .turnEnd m => m
 
 def evIdx : Ev → Nat
   | .ws => 0 | .sg => 1 | .sd => 2 | .wp => 3 | .pg => 4 | .pd => 5
@@ -108,6 +108,7 @@ structure Inv (st : St) : Prop where
   sorted : st.act.Pairwise (fun a b => before st.modes a b = true)
   cfgOwned : ∀ e ∈ st.bus, e.cls = .cfg → (st.modes e.owner).starting = true ∨ (st.modes e.owner).active = true
   life : ∀ m, dfa 0 (proj m st.log) = some (pos (st.modes m))
+  turnOwned : ∀ e ∈ st.bus, e.cls = .turn → (st.modes e.owner).starting = true
 
 theorem inv_init (cfg : Nat → Cfg) : Inv (init cfg) := by
   constructor <;> simp [init, proj, dfa, pos]
@@ -162,7 +163,7 @@ theorem pairwise_upd_prio (st : St) (m : Nat) (ms' : MState) (l : List Nat) (hpr
 
 theorem startCore_inv (st : St) (m : Nat) (prio : Option Int) (queue : Bool) (hI : Inv st)
     (hna : (st.modes m).active = false) (hns : (st.modes m).starting = false) : Inv (startCore st m prio queue) := by
-  obtain ⟨hexcl, hstop, hmem, hsorted, hcfg, hlife⟩ := hI
+  obtain ⟨hexcl, hstop, hmem, hsorted, hcfg, hlife, hturn⟩ := hI
   have hnp : (st.modes m).stopping = false := by
     cases hx : (st.modes m).stopping
     · rfl
@@ -171,7 +172,7 @@ theorem startCore_inv (st : St) (m : Nat) (prio : Option Int) (queue : Bool) (hI
   unfold startCore
   first
     | skip
-  refine ⟨?_, ?_, ?_, ?_, ?_, ?_⟩ <;> dsimp only
+  refine ⟨?_, ?_, ?_, ?_, ?_, ?_, ?_⟩ <;> dsimp only
   · intro m' ha
     by_cases hm : m' = m
     · subst hm; simp [hna] at ha
@@ -195,11 +196,20 @@ theorem startCore_inv (st : St) (m : Nat) (prio : Option Int) (queue : Bool) (hI
       · exact absurd (mkEnts_owner m .own _ e he).1 hm
       · exact absurd (mkEnts_owner m .cfg _ e he).1 hm
   · exact life_step st m [.ws, .sg] 2 _ hlife (by simp [pos, hns, hnp, hna, dfa, evIdx]) (by simp [pos])
+  · intro e he hc
+    simp only [List.mem_append] at he
+    by_cases hm : e.owner = m
+    · rw [hm]; simp
+    · rw [upd_other _ _ _ _ hm]
+      rcases he with (he | he) | he
+      · exact hturn e he hc
+      · exact absurd (mkEnts_owner m .own _ e he).1 hm
+      · exact absurd (mkEnts_owner m .cfg _ e he).1 hm
 
 theorem cbCore_inv (st : St) (m : Nat) (hI : Inv st) : Inv (cbCore st m) := by
-  obtain ⟨hexcl, hstop, hmem, hsorted, hcfg, hlife⟩ := hI
+  obtain ⟨hexcl, hstop, hmem, hsorted, hcfg, hlife, hturn⟩ := hI
   unfold cbCore
-  refine ⟨?_, ?_, ?_, ?_, ?_, ?_⟩ <;> dsimp only
+  refine ⟨?_, ?_, ?_, ?_, ?_, ?_, ?_⟩ <;> dsimp only
   · intro m' ha
     by_cases hm : m' = m
     · subst hm; simp at ha ⊢; exact hexcl m' ha
@@ -218,12 +228,16 @@ theorem cbCore_inv (st : St) (m : Nat) (hI : Inv st) : Inv (cbCore st m) := by
     · rw [hm]; simp; rw [← hm]; exact hcfg e he hc
     · rw [upd_other _ _ _ _ hm]; exact hcfg e he hc
   · exact life_keep st m _ hlife (by simp [pos])
+  · intro e he hc
+    by_cases hm : e.owner = m
+    · rw [hm]; simp; rw [← hm]; exact hturn e he hc
+    · rw [upd_other _ _ _ _ hm]; exact hturn e he hc
 
 theorem cleanup_inv (st : St) (m : Nat) (hI : Inv st) : Inv (cleanup st m) := by
-  obtain ⟨hexcl, hstop, hmem, hsorted, hcfg, hlife⟩ := hI
+  obtain ⟨hexcl, hstop, hmem, hsorted, hcfg, hlife, hturn⟩ := hI
   unfold cleanup
   split
-  · refine ⟨?_, ?_, ?_, ?_, ?_, ?_⟩ <;> dsimp only
+  · refine ⟨?_, ?_, ?_, ?_, ?_, ?_, ?_⟩ <;> dsimp only
     · intro m' ha
       by_cases hm : m' = m
       · subst hm; simp at ha ⊢; exact hexcl m' ha
@@ -243,7 +257,12 @@ theorem cleanup_inv (st : St) (m : Nat) (hI : Inv st) : Inv (cleanup st m) := by
       · rw [hm]; simp; rw [← hm]; exact hcfg e he.1 hc
       · rw [upd_other _ _ _ _ hm]; exact hcfg e he.1 hc
     · exact life_keep st m _ hlife (by simp [pos])
-  · exact ⟨hexcl, hstop, hmem, hsorted, hcfg, hlife⟩
+    · intro e he hc
+      simp only [List.mem_filter] at he
+      by_cases hm : e.owner = m
+      · rw [hm]; simp; rw [← hm]; exact hturn e he.1 hc
+      · rw [upd_other _ _ _ _ hm]; exact hturn e he.1 hc
+  · exact ⟨hexcl, hstop, hmem, hsorted, hcfg, hlife, hturn⟩
 
 theorem cleanup_flags (st : St) (m m' : Nat) :
     ((cleanup st m).modes m').active = (st.modes m').active ∧ ((cleanup st m).modes m').starting = (st.modes m').starting ∧
@@ -256,12 +275,12 @@ theorem cleanup_flags (st : St) (m m' : Nat) :
   · simp
 
 theorem step_inv (st st' : St) (op : Op) (hI : Inv st) (h : step st op = some st') : Inv st' := by
-  obtain ⟨hexcl, hstop, hmem, hsorted, hcfg, hlife⟩ := hI
+  obtain ⟨hexcl, hstop, hmem, hsorted, hcfg, hlife, hturn⟩ := hI
   cases op with
   | start m prio queue gameOk =>
     simp only [step] at h
     split at h
-    · cases h; exact ⟨hexcl, hstop, hmem, hsorted, hcfg, hlife⟩
+    · cases h; exact ⟨hexcl, hstop, hmem, hsorted, hcfg, hlife, hturn⟩
     · rename_i hg
       cases h
       have hna : (st.modes m).active = false := by
@@ -269,7 +288,7 @@ theorem step_inv (st st' : St) (op : Op) (hI : Inv st) (h : step st op = some st
       have hns : (st.modes m).starting = false := by
         cases hx : (st.modes m).starting <;> simp [hx] at hg ⊢
       have hf := cleanup_flags st m m
-      exact startCore_inv _ m prio queue (cleanup_inv st m ⟨hexcl, hstop, hmem, hsorted, hcfg, hlife⟩)
+      exact startCore_inv _ m prio queue (cleanup_inv st m ⟨hexcl, hstop, hmem, hsorted, hcfg, hlife, hturn⟩)
         (by rw [hf.1]; exact hna) (by rw [hf.2.1]; exact hns)
   | started m =>
     simp only [step] at h
@@ -287,7 +306,7 @@ theorem step_inv (st st' : St) (op : Op) (hI : Inv st) (h : step st op = some st
         · rfl
         · have := hstop m hx; simp [hna] at this
       have hmn : m ∉ st.act := fun hx => by have := (hmem m).mp hx; simp [hna] at this
-      refine ⟨?_, ?_, ?_, ?_, ?_, ?_⟩ <;> dsimp only
+      refine ⟨?_, ?_, ?_, ?_, ?_, ?_, ?_⟩ <;> dsimp only
       · intro m' ha
         by_cases hm : m' = m
         · subst hm; simp
@@ -309,15 +328,23 @@ theorem step_inv (st st' : St) (op : Op) (hI : Inv st) (h : step st op = some st
         · rw [hm]; simp
         · rw [upd_other _ _ _ _ hm]
           rcases he with he | he
-          · exact hcfg e he hc
+          · exact hcfg e (List.mem_filter.mp he).1 hc
           · exact absurd (mkEnts_owner m .dev _ e he).1 hm
       · exact life_step st m [.sd] 3 _ hlife (by simp [pos, hs', dfa, evIdx]) (by simp [pos, hnp])
+      · intro e he hc
+        simp only [List.mem_append] at he
+        rcases he with he | he
+        · have hf := List.mem_filter.mp he
+          by_cases hm : e.owner = m
+          · have := hf.2; simp [ownedBy, hm, hc] at this
+          · rw [upd_other _ _ _ _ hm]; exact hturn e hf.1 hc
+        · have := (mkEnts_owner m .dev _ e he).2; rw [hc] at this; cases this
   | startedCb m =>
     simp only [step] at h
     split at h
     · cases h
     · cases h
-      refine ⟨?_, ?_, ?_, ?_, ?_, ?_⟩ <;> dsimp only
+      refine ⟨?_, ?_, ?_, ?_, ?_, ?_, ?_⟩ <;> dsimp only
       · intro m' ha
         by_cases hm : m' = m
         · subst hm; simp at ha ⊢; exact hexcl m' ha
@@ -336,10 +363,14 @@ theorem step_inv (st st' : St) (op : Op) (hI : Inv st) (h : step st op = some st
         · rw [hm]; simp; rw [← hm]; exact hcfg e he hc
         · rw [upd_other _ _ _ _ hm]; exact hcfg e he hc
       · exact life_keep st m _ hlife (by simp [pos])
+      · intro e he hc
+        by_cases hm : e.owner = m
+        · rw [hm]; simp; rw [← hm]; exact hturn e he hc
+        · rw [upd_other _ _ _ _ hm]; exact hturn e he hc
   | stop m =>
     simp only [step] at h
     split at h
-    · cases h; exact ⟨hexcl, hstop, hmem, hsorted, hcfg, hlife⟩
+    · cases h; exact ⟨hexcl, hstop, hmem, hsorted, hcfg, hlife, hturn⟩
     · rename_i hg
       cases h
       have ha : (st.modes m).active = true := by
@@ -347,7 +378,7 @@ theorem step_inv (st st' : St) (op : Op) (hI : Inv st) (h : step st op = some st
       have hnp : (st.modes m).stopping = false := by
         cases hx : (st.modes m).stopping <;> simp [hx] at hg ⊢
       have hns := hexcl m ha
-      refine ⟨?_, ?_, ?_, ?_, ?_, ?_⟩ <;> dsimp only
+      refine ⟨?_, ?_, ?_, ?_, ?_, ?_, ?_⟩ <;> dsimp only
       · intro m' ha'
         by_cases hm : m' = m
         · subst hm; simp [hns]
@@ -366,6 +397,10 @@ theorem step_inv (st st' : St) (op : Op) (hI : Inv st) (h : step st op = some st
         · rw [hm]; simp [ha]
         · rw [upd_other _ _ _ _ hm]; exact hcfg e he hc
       · exact life_step st m [.wp, .pg] 5 _ hlife (by simp [pos, hns, hnp, ha, dfa, evIdx]) (by simp [pos, hns])
+      · intro e he hc
+        by_cases hm : e.owner = m
+        · rw [hm]; simp; rw [← hm]; exact hturn e he hc
+        · rw [upd_other _ _ _ _ hm]; exact hturn e he hc
   | stopped m =>
     simp only [step] at h
     split at h
@@ -375,7 +410,7 @@ theorem step_inv (st st' : St) (op : Op) (hI : Inv st) (h : step st op = some st
       have hp : (st.modes m).stopping = true := by simpa using hs
       have ha := hstop m hp
       have hns := hexcl m ha
-      refine ⟨?_, ?_, ?_, ?_, ?_, ?_⟩ <;> dsimp only
+      refine ⟨?_, ?_, ?_, ?_, ?_, ?_, ?_⟩ <;> dsimp only
       · intro m' ha'
         by_cases hm : m' = m
         · subst hm; simp at ha'
@@ -400,33 +435,60 @@ theorem step_inv (st st' : St) (op : Op) (hI : Inv st) (h : step st op = some st
           simp [ownedBy, hm, hc] at this
         · rw [upd_other _ _ _ _ hm]; exact hcfg e he.1 hc
       · exact life_step st m [.pd] 0 _ hlife (by simp [pos, hns, hp, dfa, evIdx]) (by simp [pos, hns])
+      · intro e he hc
+        simp only [List.mem_filter] at he
+        by_cases hm : e.owner = m
+        · rw [hm]; simp; rw [← hm]; exact hturn e he.1 hc
+        · rw [upd_other _ _ _ _ hm]; exact hturn e he.1 hc
   | stoppedCb m =>
     simp only [step] at h
     split at h
     · cases h
     · cases h
-      exact cbCore_inv _ m (cleanup_inv st m ⟨hexcl, hstop, hmem, hsorted, hcfg, hlife⟩)
+      exact cbCore_inv _ m (cleanup_inv st m ⟨hexcl, hstop, hmem, hsorted, hcfg, hlife, hturn⟩)
   | addH m id =>
     simp only [step, Option.some.injEq] at h
     cases h
-    refine ⟨hexcl, hstop, hmem, hsorted, ?_, hlife⟩
-    intro e he hc
-    simp only [List.mem_append, List.mem_singleton] at he
-    rcases he with he | he
-    · exact hcfg e he hc
-    · rw [he] at hc; cases hc
+    refine ⟨hexcl, hstop, hmem, hsorted, ?_, hlife, ?_⟩
+    · intro e he hc
+      simp only [List.mem_append, List.mem_singleton] at he
+      rcases he with he | he
+      · exact hcfg e he hc
+      · rw [he] at hc; cases hc
+    · intro e he hc
+      simp only [List.mem_append, List.mem_singleton] at he
+      rcases he with he | he
+      · exact hturn e he hc
+      · rw [he] at hc; cases hc
   | addSw m id =>
     simp only [step, Option.some.injEq] at h
     cases h
-    exact ⟨hexcl, hstop, hmem, hsorted, hcfg, hlife⟩
+    exact ⟨hexcl, hstop, hmem, hsorted, hcfg, hlife, hturn⟩
   | addDl m id =>
     simp only [step, Option.some.injEq] at h
     cases h
-    exact ⟨hexcl, hstop, hmem, hsorted, hcfg, hlife⟩
+    exact ⟨hexcl, hstop, hmem, hsorted, hcfg, hlife, hturn⟩
   | fireDl m id =>
     simp only [step] at h
     split at h
-    · cases h; exact ⟨hexcl, hstop, hmem, hsorted, hcfg, hlife⟩
+    · cases h; exact ⟨hexcl, hstop, hmem, hsorted, hcfg, hlife, hturn⟩
+    · cases h
+  | turnEnd m =>
+    simp only [step] at h
+    split at h
+    · rename_i hs
+      cases h
+      refine ⟨hexcl, hstop, hmem, hsorted, ?_, hlife, ?_⟩
+      · intro e he hc
+        simp only [List.mem_append, List.mem_singleton] at he
+        rcases he with he | he
+        · exact hcfg e he hc
+        · rw [he] at hc; cases hc
+      · intro e he hc
+        simp only [List.mem_append, List.mem_singleton] at he
+        rcases he with he | he
+        · exact hturn e he hc
+        · rw [he]; exact hs
     · cases h
 
 theorem run_inv (st : St) (ops : List Op) (hI : Inv st) : Inv (run st ops) := by
@@ -493,7 +555,10 @@ theorem step_frame (st st' : St) (op : Op) (h : step st op = some st') :
     split at h
     · cases h
     · cases h
-      simp [Op.target, List.filter_append, filter_other_mk]
+      refine ⟨?_, rfl, rfl⟩
+      dsimp only [Op.target]
+      rw [List.filter_append, filter_other_mk, List.append_nil]
+      apply filter_other_filter; intro e he; simp [ownedBy, he]
   | startedCb m =>
     simp only [step] at h
     split at h
@@ -538,6 +603,12 @@ theorem step_frame (st st' : St) (op : Op) (h : step st op = some st') :
       dsimp only [Op.target]; apply filter_other_filter; intro e he
       simp only [bne_iff_ne, ne_eq]
       intro heq; rw [heq] at he; exact he rfl
+    · cases h
+  | turnEnd m =>
+    simp only [step] at h
+    split at h
+    · cases h
+      simp [Op.target, List.filter_append]
     · cases h
 
 theorem run_frame (st : St) (ops : List Op) (m : Nat) (ht : ∀ op ∈ ops, op.target = m) :
